@@ -256,6 +256,7 @@ func (c *Component) handleSCCRP(t *Tunnel, avps []l2tppkt.AVP) error {
 	if err := t.FSM.RecvSCCRP(); err != nil {
 		return err
 	}
+	applyPeerReceiveWindow(t, avps)
 
 	sccccnBody := l2tppkt.BuildSCCCN(peerResp)
 	if err := t.Channel.Send(sccccnBody, time.Now()); err != nil {
